@@ -39,7 +39,7 @@ pub const UNICODE_WS: [char; 21] = [
     '\u{2009}', '\u{200A}', '\u{2028}', '\u{2029}', '\u{202F}', '\u{205F}', '\u{3000}', '\u{000B}', '\u{000C}',
 ];
 
-pub const COMMENT_BODIES: [&str; 25] = [
+pub const COMMENT_BODIES: [&str; 27] = [
     "",
     " plain comment",
     " #[derive(Debug)]",
@@ -60,6 +60,9 @@ pub const COMMENT_BODIES: [&str; 25] = [
     "\r$x @",
     " x\r#[",
     "\u{2028}struct \u{0085}enum",
+    // rare character classes
+    " \u{10FFFF}\u{FFFF}\u{FFFD} e\u{0301} İıﬁ ٣ Ａ",
+    " \u{0085}\u{000B}\u{000C}\u{001F}\u{200B}\u{FEFF}\u{0}\u{7F} straße",
     // comments that look like something a tool might want to interpret
     "/ outer doc comment",
     "! inner doc comment",
@@ -241,7 +244,10 @@ pub fn render(atoms: &[Atom], layout: &[u16]) -> Rendered {
 // ---------------------------------------------------------------------------
 // G4 attributes
 
-pub const ATTR_FILLER: [&str; 40] = [
+pub const ATTR_FILLER: [&str; 58] = [
+    // rare classes (all legal inside an attribute, which is copied verbatim)
+    "\u{10FFFF}", "\u{FFFF}", "\u{FFFD}", "e\u{0301}", "İ", "ı", "ﬁ", "٣", "Ａ", "\u{0085}", "\u{000B}", "\u{000C}", "\u{001F}", "\u{200B}", "\u{FEFF}", "\u{0}", "\u{7F}",
+    "straße",
     "a", "derive", "Debug", "Clone", " ", ", ", "=", "\"", "'", "/", "//", "#", "$", ".", "!", "-", "::", "<", ">", "|", "\\", "\t", "\r", "é", "€", "𝄞",
     "ß", "中", "\u{00A0}", "\u{2028}", "0", "_", "cfg", "doc", "\"]\"", "x y", ";", "?", "@", "~",
 ];
